@@ -159,6 +159,9 @@ CALL = {
     # group_by is not named by the statement either; same treatment: returning the receiver itself is a plain use of
     # it, returning another list that holds the receiver's item objects makes the receiver an ancestor of that list
     "group_by": lambda x, r, ev: x.group_by("k"),
+    # full_join is in neither list of the statement; same observational treatment (with a literal and an empty right list)
+    "full_join_lit": lambda x, r, ev: x.full_join(make_lit(), "k"),
+    "full_join_empty": lambda x, r, ev: x.full_join(di.ListOfDicts([]), "k"),
     # in-place (statement: modify, modify_if, rename, select, unselect, fill_missing_keys, inner_join, left_join)
     "modify": lambda x, r, ev: x.modify(a=lambda it: 5),
     "modify_if": lambda x, r, ev: x.modify_if(lambda it: it["k"] == 1, a=lambda it: 6),
@@ -179,7 +182,7 @@ CALL = {
 SIMPLE_D = ("filter_fn", "filter_kv", "sort", "unique", "head", "head0", "tail", "slice", "copy", "reverse",
             "chain_filter_sort", "chain_slice_reverse")
 SIMPLE_E = ("modify", "modify_if", "modify_if_nested", "rename", "select", "unselect", "fill", "fill_kv")
-MAPS = ("map_identity", "map_tag", "group_by")
+MAPS = ("map_identity", "map_tag", "group_by", "full_join_lit", "full_join_empty")
 USES = ("pluck", "to_string")
 # which method of the statement each op instantiates (for the reference model and reports)
 METHOD = {"filter_fn": "filter", "filter_kv": "filter", "modify_if_nested": "modify_if",
@@ -198,6 +201,7 @@ SOURCE = {
     "chain_filter_sort": "{x}.filter(lambda it: True).sort(k=-1)", "chain_slice_reverse": "{x}[0:].reverse()", "sample": "{x}.sample({n})  # random.sample answers {answer}",
     "semi_join": "{x}.semi_join({r}, 'k')", "anti_join": "{x}.anti_join({r}, 'k')",
     "map_identity": "{x}.map(lambda it: it)", "map_tag": "{x}.map(lambda it: {{**it, 't': 1}})", "group_by": "{x}.group_by('k')",
+    "full_join_lit": "{x}.full_join(ListOfDicts(" + LIT.replace("{", "{{").replace("}", "}}") + "), 'k')", "full_join_empty": "{x}.full_join(ListOfDicts([]), 'k')",
     "modify": "{x}.modify(a=lambda it: 5)", "modify_if": "{x}.modify_if(lambda it: it['k'] == 1, a=lambda it: 6)",
     "modify_if_nested": "{x}.modify_if(lambda it: isinstance(it.get('n'), Box) and len(it['n'].v) < 2, "
                         "n=lambda it: (it['n'].v.append(1), it['n'])[1])",
